@@ -256,15 +256,15 @@ class World:
             raise ValueError(op)
 
     def canonical_state(self):
+        # the state of a retort = the key sets of whatever dict-valued "cache" attributes it holds (found by name, so the
+        # abstraction follows a renamed or added cache; identity of the state only steers deduplication, never the verdict)
         parts = []
-        for r in self.retorts:
+        for r in [*self.retorts, *self.conv]:
             keys = []
-            for cache_name in ("_loader_cache", "_dumper_cache"):
-                keys += sorted(f"{cache_name}:{_typed_repr(k)}" for k in getattr(r, cache_name))
-            keys += sorted("call:" + _typed_repr(k)[:300] for k in r._call_cache)
+            for attr, val in sorted(vars(r).items()):
+                if "cache" in attr and isinstance(val, dict):
+                    keys += sorted(f"{attr}:{_typed_repr(k)[:300]}" for k in val)
             parts.append(keys)
-        for c in self.conv:
-            parts.append(sorted("conv:" + _typed_repr(k) for k in c._simple_converter_cache))
         return digest(repr(parts))
 
 
